@@ -25,6 +25,9 @@ type ProgParam struct {
 	Len     int     `json:"len,omitempty"`
 	Cap     int     `json:"cap,omitempty"`
 	Nil     bool    `json:"nil,omitempty"`
+	// Unsupported: a kind outside the property's list (interface, struct, array, named types from other
+	// packages, variadic): only "no crash, raw values unchanged" is demanded, the comparison of this frame stops here.
+	Unsupported bool `json:"unsupported,omitempty"`
 }
 
 // ProgFunc is one function of the chain.
@@ -105,6 +108,23 @@ func genIntParam(r *core.Rand) ProgParam {
 
 // GenParam makes a parameter of a supported kind. ptrKinds enables map/chan/func.
 func GenParam(r *core.Rand) ProgParam {
+	if r.Chance(1, 14) {
+		u := []ProgParam{
+			{Kind: "interface{}", Lit: "gInt", Words: 2},
+			{Kind: "error", Lit: "nil", Words: 2},
+			{Kind: "T", Lit: "T{3, 4}", Words: 2},
+			{Kind: "[2]int", Lit: "[2]int{5, 6}", Words: 2},
+			{Kind: "time.Duration", Lit: "time.Second", Words: 1},
+			{Kind: "fmt.Stringer", Lit: "nil", Words: 2},
+			{Kind: "struct{ x int }", Lit: "struct{ x int }{7}", Words: 1},
+			{Kind: "[]*T", Lit: "nil", Words: 3},
+			{Kind: "*[]int", Lit: "nil", Words: 1},
+			{Kind: "map[string][]int", Lit: "nil", Words: 1},
+			{Kind: "<-chan int", Lit: "gChan", Words: 1},
+		}[r.Intn(11)]
+		u.Unsupported = true
+		return u
+	}
 	switch r.Intn(14) {
 	case 0:
 		b := r.Bool()
@@ -187,6 +207,10 @@ func GenProg(r *core.Rand, n int) *Prog {
 			f.Params = append(f.Params, pp)
 			f.Words += pp.Words
 		}
+		if r.Chance(1, 10) && f.Words+3 <= budget {
+			f.Params = append(f.Params, ProgParam{Kind: "...int", Lit: "1, 2", Words: 3, Unsupported: true})
+			f.Words += 3
+		}
 		p.Funcs = append(p.Funcs, f)
 	}
 	var b strings.Builder
@@ -196,6 +220,14 @@ func GenProg(r *core.Rand, n int) *Prog {
 		line++
 	}
 	w("package main")
+	w("")
+	w("import (")
+	w("\t\"fmt\"")
+	w("\t\"time\"")
+	w(")")
+	w("")
+	w("var _ fmt.Stringer")
+	w("var _ = time.Second")
 	w("")
 	w("type T struct{ a, b int }")
 	w("")
